@@ -176,3 +176,197 @@ Example fragment_unit_example :
   /\ nth_error (r_toks r) 11 = Some (RTT_Op (OK_Equal EK_Decl))
   /\ nth_error (render_unit ds ss) 11 = Some (RTT_Op (OK_Equal EK_Comp)).
 Proof. repeat split; vm_compute; reflexivity. Qed.
+
+(* ================================================================== *)
+(* units with type sections as well (Fragment.render_unit2): records, and classes with visibility sections *)
+Lemma render_vsecs_plain vs : Forall plain (render_vsecs vs).
+Proof.
+  induction vs as [|[pv j] r IH]; cbn [render_vsecs]; [constructor|]. constructor; [destruct pv; exact I|].
+  apply Forall_app. split; [|exact IH]. apply render_members_plain. repeat (constructor; [exact I|]). constructor.
+Qed.
+Lemma render_tdefs_plain ts : Forall plain (render_tdefs ts).
+Proof.
+  assert (F : forall j, Forall plain (render_fields j)) by (intros j; apply render_members_plain; repeat (constructor; [exact I|]); constructor).
+  induction ts as [|[j|n0 vs] r IH]; cbn [render_tdefs render_tdef]; [constructor| |]; (apply Forall_app; split; [|exact IH]);
+    repeat (constructor; [exact I|]); repeat (apply Forall_app; split); try apply F; try apply render_vsecs_plain; repeat (constructor; [exact I|]); constructor.
+Qed.
+Lemma render_udecls_plain ds : Forall plain (render_udecls ds).
+Proof.
+  induction ds as [|[j|j|ts] r IH]; cbn [render_udecls render_udecl]; [constructor| | |]; (apply Forall_app; split; [|exact IH]); (constructor; [exact I|]).
+  - apply render_members_plain; repeat (constructor; [exact I|]); constructor.
+  - apply render_members_plain; repeat (constructor; [exact I|]); constructor.
+  - apply render_tdefs_plain.
+Qed.
+Lemma render_unit2_plain ds ss : Forall plain (render_unit2 ds ss).
+Proof. unfold render_unit2. apply Forall_app. split; [apply render_udecls_plain|apply render_prog_plain]. Qed.
+Lemma vsecs_need_le vs : vneed vs + length vs <= length (render_vsecs vs).
+Proof. induction vs as [|[pv j] r IH]; cbn [vneed render_vsecs length]; [lia|]. rewrite app_length, render_fields_length. lia. Qed.
+Lemma tsneed_le ts : tsneed ts + length ts <= length (render_tdefs ts) + 10 /\ length ts <= length (render_tdefs ts).
+Proof.
+  induction ts as [|td r [IH IH2]]; cbn [tsneed render_tdefs length]; [lia|]. rewrite app_length.
+  assert (tneed td + 4 <= length (render_tdef td) + 10).
+  { destruct td as [j|n0 vs]; cbn [tneed render_tdef length]; rewrite ?app_length, ?render_fields_length; cbn [length]; [lia|].
+    pose proof (vsecs_need_le vs). lia. }
+  assert (5 <= length (render_tdef td)) by (destruct td; cbn [render_tdef length]; rewrite ?app_length; cbn [length]; lia).
+  lia.
+Qed.
+Lemma udneed_le ds : udneed ds <= length (render_udecls ds) + 12 /\ length ds <= length (render_udecls ds).
+Proof.
+  induction ds as [|dc r [IH1 IH2]]; cbn [udneed render_udecls length]; [lia|]. rewrite app_length.
+  assert (usneed dc <= length (render_udecl dc) + 12 /\ 1 <= length (render_udecl dc)).
+  { destruct dc as [j|j|ts]; cbn [usneed render_udecl length]; unfold render_fields; rewrite ?render_members_length; cbn [length]; try lia.
+    destruct (tsneed_le ts). lia. }
+  lia.
+Qed.
+
+Theorem fragment_unit2_parse_pass ds ss : wf ss = true ->
+  let T := render_unit2 ds ss in
+  let pass := seq 0 (length T) in
+  ps_err pass (parse_pass pass [] T []) = None /\ pidx pass (parse_pass pass [] T []) = length pass
+  /\ ps_toks pass (parse_pass pass [] T []) = map retype T
+  /\ exists el, ll_toks el = [] /\ pass_lines pass (parse_pass pass [] T []) = pexpected_unit2 ds ss ++ [el].
+Proof.
+  intros Hwf T pass.
+  pose proof (render_unit2_plain ds ss) as P. fold T in P.
+  assert (H0 : ST T [] (ps_init pass T []) 0 [] [] [] lm0 0 [] (0%N, 0%N, 0%N) []).
+  { split; [reflexivity|]. split; [reflexivity|]. split; reflexivity. }
+  assert (Ht : toks_at T 0 (render_unit2 ds ss)) by (intros j t Hj; exact Hj).
+  destruct (udneed_le ds) as [Hd1 Hd2].
+  assert (Ln : length T = length (render_udecls ds) + S (S (S (S (length (render ss)))))).
+  { unfold T, render_unit2. rewrite app_length, render_prog_length. reflexivity. }
+  assert (Hf : exists f, run_fuel pass = S (S (S (length ds + f))) /\ udneed ds + 2 <= f /\ 8 + need ss <= f).
+  { exists (run_fuel pass - 3 - length ds). unfold run_fuel, need, pass. rewrite seq_length, Ln. split; [|split]; lia. }
+  destruct Hf as (f & Ef & Hfd & Hfs).
+  unfold parse_pass. rewrite Ef.
+  destruct (unit2_run T P ds ss f _ _ _ _ _ Hwf H0 Ht eq_refl Hfd Hfs) as (mc' & last' & H).
+  fold pass in H. set (s := run pass [] (S (S (S (length ds + f)))) C_top (ps_init pass T [])) in *.
+  split; [exact (ST_err_none T [] _ _ _ _ _ _ _ _ _ _ H)|].
+  split; [|split; [transitivity (mix T (length T)); [exact (ST_toks T [] _ _ _ _ _ _ _ _ _ _ H)|apply mix_all]|]].
+  - transitivity (length T); [exact (ST_pidx T [] _ _ _ _ _ _ _ _ _ _ H)|unfold pass; rewrite seq_length; reflexivity].
+  - exists (mkLine (lm_type mc') (lm_level mc') (lm_parent mc') []). split; [reflexivity|].
+    etransitivity; [exact (pass_lines_ST T [] _ _ _ _ _ _ _ _ _ _ H)|]. f_equal. apply rebuild_lines.
+Qed.
+
+Definition flat_line (l : lline) : Prop := nonempty_line l = true /\ ll_parent l = None /\ ll_type l <> LLT_Eof.
+Lemma member_lines_at_flat lv k j : Forall flat_line (member_lines_at lv k j).
+Proof. revert k. induction j as [|j IH]; intros k; cbn [member_lines_at]; constructor; [repeat split; discriminate|apply IH]. Qed.
+Lemma vsec_lines_flat vs : forall k, Forall flat_line (vsec_lines k vs).
+Proof.
+  induction vs as [|[pv j] r IH]; intros k; cbn [vsec_lines]; constructor; [repeat split; discriminate|].
+  apply Forall_app. split; [apply member_lines_at_flat|apply IH].
+Qed.
+Lemma tdefs_lines_flat ts : forall k, Forall flat_line (tdefs_lines k ts).
+Proof.
+  induction ts as [|td r IH]; intros k; cbn [tdefs_lines]; [constructor|]. apply Forall_app. split; [|apply IH].
+  unfold tdef_lines. constructor; [repeat split; discriminate|]. apply Forall_app. split; [|constructor; [repeat split; discriminate|constructor]].
+  destruct td; [apply member_lines_at_flat|apply Forall_app; split; [apply member_lines_at_flat|apply vsec_lines_flat]].
+Qed.
+Lemma udecl_lines_flat ds : forall k, Forall flat_line (udecl_lines k ds).
+Proof.
+  induction ds as [|dc r IH]; intros k; cbn [udecl_lines]; constructor; [repeat split; discriminate|].
+  apply Forall_app. split; [|apply IH]. destruct dc; cbn [usection_lines]; [apply member_lines_at_flat|apply member_lines_at_flat|apply tdefs_lines_flat].
+Qed.
+Lemma pexpected_unit2_seg_ok ds ss : seg_ok [] (pexpected_unit2 ds ss).
+Proof.
+  unfold pexpected_unit2, main_lines. cbv zeta. apply seg_ok_app.
+  - apply seg_ok_flat. eapply Forall_impl; [|apply udecl_lines_flat]. intros l (_ & H & _). exact H.
+  - cbn [app]. apply seg_ok_cons; [intros _; exact I|].
+    apply seg_ok_app; [apply pexpected_seg_ok; [rewrite app_length; cbn [length]; lia|exact I]|].
+    apply seg_ok_cons; [intros _; exact I|]. apply seg_ok_cons; [intros _; exact I|]. apply seg_ok_nil.
+Qed.
+
+(* THE THEOREM for units with type sections: parse_file ends without error and returns EXACTLY the expected
+   lines — section keywords at level 0; members of var/const sections and the `Name = record|class` lines at
+   level 1; the fields of a record or class at level 2, its visibility keywords and its `end ;` at level 1 —
+   and the tokens are the input with `var`/`const`/`=`/`private`/`public`/`on` re-typed as the parser does *)
+Theorem fragment_unit2_parse_file ds ss : wf ss = true ->
+  let r := parse_file_model (render_unit2 ds ss) [] in
+  r_err r = None /\ r_lines r = expected_unit2 ds ss /\ r_toks r = map retype (render_unit2 ds ss).
+Proof.
+  intros Hwf. set (T := render_unit2 ds ss). pose proof (render_unit2_plain ds ss) as P. fold T in P.
+  unfold parse_file_model. rewrite (no_directives_single_identity_pass T (plain_no_directive T P)).
+  unfold parse_file_with. cbn [parse_passes].
+  destruct (fragment_unit2_parse_pass ds ss Hwf) as (He & Hpi & Htoks & el & Hel & Hpl). fold T in He, Hpi, Htoks, Hpl.
+  set (pass := seq 0 (length T)) in *.
+  pose proof (parse_pass_lines_wf pass [] T [] (increasing_seq 0 (length T))) as (_ & Hnd & _).
+  set (s := parse_pass pass [] T []) in *. clearbody s.
+  rewrite He.
+  assert (PF : Forall plain (map retype T)) by (apply Forall_map; eapply Forall_impl; [intros a Ha; apply fin_plain, Ha|exact P]).
+  assert (PC : Forall (fun t => cement t = t) (map retype T)) by (apply Forall_map; eapply Forall_impl; [intros a Ha; apply cement_fin, Ha|exact P]).
+  rewrite Htoks, (cement_fold_plain (map retype T) PC pass), (directive_lines_plain (map retype T) 0 _ 0%N PF).
+  cbn [r_err r_lines r_toks]. split; [reflexivity|]. split; [|reflexivity].
+  rewrite consolidate_nil_r. rewrite Hpl in *. clear Hpl.
+  assert (E1 : consolidate_pass_lines [] (pexpected_unit2 ds ss ++ [el]) = consolidate_pass_lines [] (pexpected_unit2 ds ss)).
+  { unfold consolidate_pass_lines. rewrite fold_left_app. cbn [fold_left].
+    destruct (fold_left consolidate_step (pexpected_unit2 ds ss) ([], [])) as [acc mp]. cbn [consolidate_step]. rewrite Hel. reflexivity. }
+  rewrite E1. apply consolidate_parents0; [|apply pexpected_unit2_seg_ok].
+  rewrite map_app, concat_app in Hnd. cbn [map concat] in Hnd. rewrite Hel, app_nil_r in Hnd. exact Hnd.
+Qed.
+
+Theorem fragment_unit2_parents_ok ds ss : wf ss = true -> parents_ok (r_lines (parse_file_model (render_unit2 ds ss) [])) = true.
+Proof.
+  intros Hwf. destruct (fragment_unit2_parse_file ds ss Hwf) as (_ & Hl & _). rewrite Hl. apply parents_ok_finalize, pexpected_unit2_seg_ok.
+Qed.
+
+(* the lines of the sections come first, exactly as udecl_lines gives them: the declaration half of C05 with
+   type sections *)
+Corollary fragment_unit2_sections ds ss : wf ss = true ->
+  exists rest, r_lines (parse_file_model (render_unit2 ds ss) []) = udecl_lines 0 ds ++ rest.
+Proof.
+  intros Hwf. destruct (fragment_unit2_parse_file ds ss Hwf) as (_ & Hl & _). rewrite Hl.
+  unfold expected_unit2. rewrite finalize_eq. unfold pexpected_unit2 at 2. cbv zeta. rewrite filter_app, map_app.
+  eexists. f_equal.
+  pose proof (udecl_lines_flat ds 0) as F.
+  rewrite (filter_all nonempty_line). 2: { eapply Forall_impl; [|exact F]. intros l (H & _). exact H. }
+  rewrite <- (map_id (udecl_lines 0 ds)) at 2. apply map_ext_in. intros l Hin.
+  apply remap_flat. exact (proj1 (proj2 (proj1 (Forall_forall _ _) F l Hin))).
+Qed.
+
+Corollary fragment_unit2_single_eof_line ds ss : wf ss = true ->
+  let r := parse_file_model (render_unit2 ds ss) [] in
+  let e := length (render_udecls ds) + 1 + length (render ss) + 2 in
+  exists pre, r_lines r = pre ++ [mkLine LLT_Eof 0%N None [e]]
+    /\ Forall (fun l => ll_type l <> LLT_Eof) pre
+    /\ nth_error (render_unit2 ds ss) e = Some RTT_Eof
+    /\ length (render_unit2 ds ss) = S e.
+Proof.
+  intros Hwf r e. destruct (fragment_unit2_parse_file ds ss Hwf) as (_ & Hl & _). fold r in Hl.
+  set (K := length (render_udecls ds)) in *. set (LI := length (udecl_lines 0 ds)).
+  set (A := udecl_lines 0 ds ++ mkLine LLT_Unknown 0%N None [K] :: pexpected None 1 (K + 1) (LI + 1) ss
+          ++ [mkLine LLT_Unknown 0%N None [K + 1 + length (render ss); K + 1 + length (render ss) + 1]]).
+  set (x := mkLine LLT_Eof 0%N None [e]).
+  assert (EP : pexpected_unit2 ds ss = A ++ [x]).
+  { unfold pexpected_unit2, main_lines, A, x, e. cbv zeta. fold K LI. cbn [app]. rewrite <- !app_assoc. cbn [app]. rewrite <- !app_assoc. reflexivity. }
+  exists (map (remap (pexpected_unit2 ds ss)) (filter nonempty_line A)).
+  split; [|split; [|split]].
+  - rewrite Hl. unfold expected_unit2. rewrite finalize_eq. rewrite EP at 2. rewrite filter_app, map_app. reflexivity.
+  - apply Forall_map. apply Forall_forall. intros l Hin. apply filter_In in Hin. destruct Hin as [Hin _]. rewrite remap_type.
+    revert l Hin. apply Forall_forall. unfold A. apply Forall_app. split.
+    + eapply Forall_impl; [|apply udecl_lines_flat]. intros l (_ & _ & H). exact H.
+    + constructor; [discriminate|]. apply Forall_app. split; [apply pexpected_no_eof|]. constructor; [discriminate|constructor].
+  - unfold render_unit2, render_prog. rewrite nth_error_app2 by (unfold e, K; lia).
+    replace (e - length (render_udecls ds)) with (S (S (S (length (render ss))))) by (unfold e, K; lia).
+    change (nth_error (render ss ++ [tEnd; tDot; RTT_Eof]) (S (S (length (render ss)))) = Some RTT_Eof).
+    rewrite nth_error_app2 by lia. replace (S (S (length (render ss))) - length (render ss)) with 2 by lia. reflexivity.
+  - unfold render_unit2. rewrite app_length, render_prog_length. fold K. unfold e. lia.
+Qed.
+
+(* non-vacuity: a type section with a record and a class with two visibility sections (`=`, `private` and
+   `public` are re-typed), a var section, then the main block *)
+Example fragment_unit2_example :
+  let ds := [UType [TRec 2; TCls 1 [(true, 1); (false, 0)]]; UVar 1] in
+  let ss := SCons TSimple SNil in
+  let r := parse_file_model (render_unit2 ds ss) [] in
+  wf ss = true /\ r_err r = None /\ r_lines r = expected_unit2 ds ss /\
+  map (fun l => (ll_type l, ll_level l, ll_parent l, ll_toks l)) (r_lines r)
+  = [(LLT_Unknown, 0%N, None, [0]); (LLT_Declaration, 1%N, None, [1; 2; 3]); (LLT_Declaration, 2%N, None, [4; 5; 6; 7]);
+     (LLT_Declaration, 2%N, None, [8; 9; 10; 11]); (LLT_Unknown, 1%N, None, [12; 13]);
+     (LLT_Declaration, 1%N, None, [14; 15; 16]); (LLT_Declaration, 2%N, None, [17; 18; 19; 20]); (LLT_Unknown, 1%N, None, [21]);
+     (LLT_Declaration, 2%N, None, [22; 23; 24; 25]); (LLT_Unknown, 1%N, None, [26]); (LLT_Unknown, 1%N, None, [27; 28]);
+     (LLT_Unknown, 0%N, None, [29]); (LLT_Declaration, 1%N, None, [30; 31; 32; 33]);
+     (LLT_Unknown, 0%N, None, [34]); (LLT_Unknown, 1%N, None, [35; 36]); (LLT_Unknown, 0%N, None, [37; 38]); (LLT_Eof, 0%N, None, [39])]
+  /\ nth_error (render_unit2 ds ss) 21 = Some (RTT_IdentifierOrKeyword KK_Private)
+  /\ nth_error (r_toks r) 21 = Some (RTT_Keyword KK_Private)
+  /\ nth_error (r_toks r) 26 = Some (RTT_Keyword KK_Public)
+  /\ nth_error (r_toks r) 2 = Some (RTT_Op (OK_Equal EK_Decl)).
+Proof. repeat split; vm_compute; reflexivity. Qed.
